@@ -155,9 +155,7 @@ class Server(utils.EventEmitter):
                 channel.connection.handle,
                 channel.source_cid,
             )
-            channel.sink = lambda pdu: self.on_gatt_pdu(
-                channel, att.ATT_PDU.from_bytes(pdu)
-            )
+            channel.sink = lambda pdu: self.on_gatt_pdu_bytes(channel, pdu)
             # Drop the per-bearer state when the bearer goes away
             channel.once(channel.EVENT_CLOSE, lambda: self.on_disconnection(channel))
 
@@ -606,6 +604,33 @@ class Server(utils.EventEmitter):
         self.subscribers.pop(bearer, None)
         self.indication_semaphores.pop(bearer, None)
         self.pending_confirmations.pop(bearer, None)
+
+    def on_gatt_pdu_bytes(self, bearer: att.Bearer, pdu: bytes) -> None:
+        try:
+            att_pdu = att.ATT_PDU.from_bytes(pdu)
+        except Exception as error:
+            self.on_invalid_gatt_pdu(bearer, pdu, error)
+            return
+        self.on_gatt_pdu(bearer, att_pdu)
+
+    def on_invalid_gatt_pdu(
+        self, bearer: att.Bearer, pdu: bytes, error: Exception
+    ) -> None:
+        '''
+        Handler for PDUs that cannot be parsed: a request is answered with an
+        Invalid PDU error, anything else is ignored.
+        '''
+        logger.warning(
+            color(f'--- Invalid ATT PDU from {_bearer_id(bearer)}: ', 'red')
+            + f'{pdu.hex()} ({error})'
+        )
+        if pdu and pdu[0] in att.ATT_REQUESTS:
+            response = att.ATT_Error_Response(
+                request_opcode_in_error=pdu[0],
+                attribute_handle_in_error=0x0000,
+                error_code=att.ATT_INVALID_PDU_ERROR,
+            )
+            self.send_response(bearer, response)
 
     def on_gatt_pdu(self, bearer: att.Bearer, att_pdu: att.ATT_PDU) -> None:
         logger.debug(f'GATT Request to server: {_bearer_id(bearer)} {att_pdu}')
